@@ -53,6 +53,39 @@ Shift(r, d) == <<r[1] + d[1], r[2] + d[2], r[3], r[4]>>
 Grow(r, n)  == <<r[1] - n, r[2] - n, r[3] + 2 * n, r[4] + 2 * n>>
 
 ---------------------------------------------------------------------------
+(* Point sets and point sequences as row runs <<y, x0, x1>> (x1 inclusive).   *)
+(* A sequence of points is encoded losslessly by merging consecutive points   *)
+(* (x+1, same y); a set is encoded by its sorted maximal runs.                *)
+RunBefore(a, b) == a[1] < b[1] \/ (a[1] = b[1] /\ a[3] < b[2])
+\* the encoded point sequence is strictly increasing in row-major order
+RunsOrdered(rs) == \A i \in 1..Len(rs) : rs[i][2] <= rs[i][3] /\ (i > 1 => RunBefore(rs[i - 1], rs[i]))
+RunsCanonical(rs) == /\ RunsOrdered(rs)
+                     /\ \A i \in 2..Len(rs) : rs[i - 1][1] = rs[i][1] => rs[i - 1][3] + 1 < rs[i][2]
+RunsToSet(rs) == UNION { { <<x, rs[i][1]>> : x \in rs[i][2]..rs[i][3] } : i \in 1..Len(rs) }
+SameRunSet(a, b) == IF RunsCanonical(a) /\ RunsCanonical(b) THEN a = b ELSE RunsToSet(a) = RunsToSet(b)
+RunsInRect(rs, r) == \A i \in 1..Len(rs) :
+  /\ rs[i][1] >= r[2] /\ rs[i][1] < r[2] + r[4] /\ rs[i][2] >= r[1] /\ rs[i][3] < r[1] + r[3]
+RECURSIVE RunsCountFrom(_, _)
+RunsCountFrom(rs, i) == IF i > Len(rs) THEN 0 ELSE (rs[i][3] - rs[i][2] + 1) + RunsCountFrom(rs, i + 1)
+RunsCount(rs) == RunsCountFrom(rs, 1)
+\* membership of a point in a run-encoded set
+InRuns(rs, p) == \E i \in 1..Len(rs) : rs[i][1] = p[2] /\ rs[i][2] <= p[1] /\ p[1] <= rs[i][3]
+\* runs of the row-major enumeration of a set of points S lying inside the rectangle r
+RunsOfSet(S, r) ==
+  LET rowRuns(y) ==
+        LET xs == { p[1] : p \in { q \in S : q[2] = y } }
+            starts == { x \in xs : (x - 1) \notin xs }
+            RECURSIVE Mk(_)
+            Mk(st) == IF st = {} THEN <<>>
+                      ELSE LET x0 == CHOOSE x \in st : \A z \in st : x <= z
+                               x1 == CHOOSE x \in xs : x >= x0 /\ (x + 1) \notin xs /\ \A z \in x0..x : z \in xs
+                           IN <<<<y, x0, x1>>>> \o Mk(st \ {x0})
+        IN Mk(starts)
+      RECURSIVE Rows(_)
+      Rows(y) == IF y >= r[2] + r[4] THEN <<>> ELSE rowRuns(y) \o Rows(y + 1)
+  IN Rows(r[2])
+
+---------------------------------------------------------------------------
 (* TRANSCRIBED: core/src/primitives/rectangle/mod.rs *)
 
 \* center_offset (mod.rs:76)
